@@ -12,7 +12,7 @@ use txtpp::verif::api::TagState;
 use txtpp::Mode;
 
 pub const NAMES: [&str; 7] = ["a", "b", "aa", "ab", "ba", "bb", "aba"];
-pub const CONTENTS: [&str; 8] = ["", "X", "a", "ab", "p\nq", "p\r\nq\r\n", "\n", "\r\n"];
+pub const CONTENTS: [&str; 9] = ["", "X", "a", "ab", "p\nq", "p\r\nq\r\n", "\n", "\r\n", "p\r\nq\nr"];
 
 #[derive(Clone, Debug, PartialEq, Eq, PartialOrd, Ord, Hash)]
 pub struct RefStore {
@@ -253,7 +253,7 @@ pub fn run_c14(tier: &str) -> i32 {
     let (depth, line_len, file_len) = if thorough { (9, 5, 5) } else { (7, 4, 4) };
     rep.set("names", json!(NAMES));
     rep.set("contents", json!(CONTENTS));
-    rep.set("bounds", json!(format!("BFS over the reference store to depth {depth} (operations create x7 names, store x8 contents, inject x all lines of <= {line_len} chars over {{a,b,-}} x LF/CRLF); whole files of <= {file_len} lines over a 15-line tag alphabet")));
+    rep.set("bounds", json!(format!("BFS over the reference store to depth {depth} (operations create x7 names, store x9 contents, inject x all lines of <= {line_len} chars over {{a,b,-}} x LF/CRLF); whole files of <= {file_len} lines over a 15-line tag alphabet")));
     rep.assume("hash iteration order is observed through Display, not controlled: each order-sensitive transition is repeated until all m! orders were seen (cap 200 tries)");
     // model BFS in the parent (pure, fast)
     let mut ops: Vec<Op> = vec![];
